@@ -54,7 +54,7 @@ func genSideShow(c *vcore.Ctx, allowSignals bool) []string {
 	sideLimitSignal = false
 	n := src.Int(3, "nchildren")
 	for i := 0; i < n; i++ {
-		kind := src.Pick("childkind", "exit", "crash", "linger", "thread", "grandchild")
+		kind := src.Pick("childkind", "exit", "crash", "linger", "thread", "grandchild", "heavy_linger", "heavy_linger")
 		c.MarkNonTrivial()
 		switch kind {
 		case "exit":
@@ -71,6 +71,11 @@ func genSideShow(c *vcore.Ctx, allowSignals bool) []string {
 			}
 		case "linger":
 			s = append(s, "fork", "1", "sleep", "300")
+		case "heavy_linger":
+			// left behind holding memory: slow to die when the runner sweeps up, and the next run (same
+			// container, same worker) starts right away - what one program leaves must not decide how the
+			// next one's ending is reported
+			s = append(s, "fork", "3", "ignore", "alloc", "128", "pause")
 		case "thread":
 			s = append(s, "thread", "1", "sleep", "200")
 		case "grandchild":
